@@ -9,14 +9,13 @@
    PROVED for every schedule and every oracle: message_conservation, stamps_unique (together:
    every sent message is in exactly one of event queue / command queue / arrival log),
    per_link_fifo / per_sender_fifo (the send sequence of a worker to a target IS arrival log ++
-   command queue ++ event queue, as lists), and the refutation of spawner_gets_pid by the F71
-   schedule.
+   command queue ++ event queue, as lists), no_message_dropped (a DeliverMessage is never handled
+   for a process that does not exist), and the refutation of spawner_gets_pid by the F71 schedule.
    NOT PROVED (partial; full statements kept here):
-     arrival = mailbox    : forall sigma, run (init nw) sigma = Good s -> no message is ever dropped
-                            (w_dropped = []) and p_arrived of process t = the arrival log of its worker
-                            restricted to t (needs "a routed process exists or its SpawnProcess precedes
-                            every DeliverMessage to it in the same queue"; the handler lemma below shows
-                            the append for an existing process).
+     arrival = mailbox    : that p_arrived of process t IS the arrival log of its worker restricted
+                            to t (needs "a process record is never replaced"). Proved: no message is
+                            ever dropped (no_message_dropped) and the CDeliver handler appends to the
+                            mailbox of an existing process (wakeup_on_message).
      spawner_gets_pid     : the GLOBAL invariant form (c in `spawning` iff exactly one of {SpawnAction
                             queued, NotifySpawn queued}) over whole schedules outside the F71 class.
                             Proved instead, for every handler and every oracle: a process leaves
@@ -29,7 +28,7 @@
                             parked select (message, awaited result, elapsed timeout); the
                             implementation-level quiescence oracle + wake-up probe of qv_sim check the
                             global statement on every explored run. *)
-From Quiver Require Import sys.Proto sys.ProtoMsg sys.ProtoFifo sys.ProtoFail sys.ProtoWake sys.ProtoExamples.
+From Quiver Require Import sys.Proto sys.ProtoMsg sys.ProtoFifo sys.ProtoDeliver sys.ProtoFail sys.ProtoWake sys.ProtoExamples.
 
 (* every stamped message that was sent is — counted with multiplicity — in exactly one of: the
    arrival log of a worker (its DeliverMessage was handled), a command queue (DeliverMessage in
@@ -73,6 +72,16 @@ Theorem C04_per_sender_fifo : forall nw sigma s,
       from p (ft t (w_sentlog (n_w ndi))) = from p (link i t (w_arrlog (n_w ndj))) ++ in_flight.
 Proof. exact per_sender_fifo. Qed.
 Print Assumptions C04_per_sender_fifo.
+
+(* nothing is dropped at the mailbox: no DeliverMessage is handled for a process that does not exist;
+   a routed process is on its worker, or its spawn command is queued there ahead of every
+   DeliverMessage addressed to it *)
+Theorem C04_no_message_dropped : forall nw sigma s,
+  0 < nw -> run (init nw) sigma = Good s ->
+  (forall n nd, nth_error (s_nodes s) n = Some nd -> w_dropped (n_w nd) = []) /\
+  (forall t n nd, alookup t (e_router (s_env s)) = Some n -> nth_error (s_nodes s) n = Some nd -> ready t (n_w nd) (n_cmd nd)).
+Proof. exact no_message_dropped. Qed.
+Print Assumptions C04_no_message_dropped.
 
 (* one Worker::step, for every oracle: the commands it handles are a prefix of its queue, their
    DeliverMessage's extend the arrival log IN ORDER, and what it emits extends its send log and its
